@@ -533,8 +533,13 @@ def _float_reference(c, opt_kind, clip):
         o = torch.optim.SGD([w], lr=float(c["base_lr"]), momentum=float(c["opt"][1]))
     out, window = [], []
     for it in range(c["T"]):
-        wf = [Fr(v) for v in w.detach().tolist()]
-        window.append([float(g) for g in toy_grad(wf, batch_rows(c, it))])
+        rows = batch_rows(c, it)
+        xb = torch.tensor([[float(v) for v in x] for x, _ in rows], dtype=torch.float64)
+        yb = torch.tensor([float(y) for _, y in rows], dtype=torch.float64)
+        res = xb @ w.detach() - yb          # the same float expression as the toy model's forward
+        if bool((res.abs() < 1e-9).any()):
+            return None                     # a residual on the kink of |·|: the sub-gradient there is a rounding accident
+        window.append((torch.sign(res)[:, None] * xb).sum(0).tolist())
         if (it + 1) % c["k"] == 0:
             mean = torch.tensor(window, dtype=torch.float64).sum(0) / c["k"]
             window = []
@@ -795,6 +800,9 @@ def oracle(ctx: Ctx, deep: bool = False):
         c2 = dict(c, opt=("adam",) if opt_kind == "adam" else c["opt"], clip=clip)
         r = real_uninterrupted(c2)
         ref = _float_reference(c, opt_kind, clip)
+        if ref is None:
+            ctx.hist["oracle/float/kink-ambiguous-skipped"] = ctx.hist.get("oracle/float/kink-ambiguous-skipped", 0) + 1
+            continue
         ctx.count(("float", opt_kind, clip, proto("loop", toy_groups(c))), c["k"] >= 2,
                   bucket=f"oracle/{opt_kind}/clip{'on' if clip else 'off'}/k{c['k']}")
         for it, ((w, lr), (rw, rlr)) in enumerate(zip(r["records"], ref)):
@@ -850,5 +858,5 @@ def replay(rep: dict) -> bool:
         base = dict(c, opt=("sgd", Fr(0)) if rep["opt_kind"] == "adam" else c["opt"])
         r = real_uninterrupted(c)
         ref = _float_reference(base, rep["opt_kind"], c.get("clip", 0))
-        return any(max(abs(a - b) for a, b in zip(w, rw)) > 1e-9 for (w, _), (rw, _) in zip(r["records"], ref))
+        return ref is not None and any(max(abs(a - b) for a, b in zip(w, rw)) > 1e-9 for (w, _), (rw, _) in zip(r["records"], ref))
     return check_exact(c, real_uninterrupted(c)) is not None
